@@ -160,6 +160,24 @@ def const_text(e):
         b = b.get('arg') or b.get('source') or b.get('expr')
     return b['value'] if b['k'] == 'Literal' and b.get('lit') == 'Str' else None
 
+def format_block_parts(b):
+    """(template literal node, argument expressions) of one format_args block: the template is the one in the block's own tail (an
+    argument may itself be a format!(..) with a template of its own)"""
+    args = None
+    for st in b['stmts']:
+        if st['k'] == 'Let' and st.get('init') is not None and strip(st['init'])['k'] == 'Tuple' and args is None: args = strip(st['init'])['fields']
+    tail = b.get('expr')
+    tm = [x for x in walk(tail) if x['k'] == 'Literal' and x.get('lit') == 'ByteStr'] if tail is not None else []
+    if not tm: tm = [x for x in walk(b) if x['k'] == 'Literal' and x.get('lit') == 'ByteStr' and not any(any(y is x for y in walk(a)) for a in (args or []))]
+    return (tm[0] if tm else None), args
+
+def peel_text(a):
+    """an expression used as text, without the plumbing around it (borrows, deref / as_str / as_ref of a String)"""
+    a = strip(a)
+    while a['k'] == 'Call' and a['args'] and ((callee_decl(a) or '') in ('std::ops::Deref::deref', 'std::convert::AsRef::as_ref', 'std::borrow::Borrow::borrow') or (callee_name(a) or '').split('::')[-1] in ('as_str',)):
+        a = strip(a['args'][0])
+    return a
+
 def rendered_texts(e, skip_ids=(), fill=None):
     """the pieces of text written below e, in order: plain string pieces and format templates, with holes whose argument is a
     string literal (e.g. a `relation: &str` parameter of an inlined helper, given as "<= 1") filled in"""
@@ -169,18 +187,22 @@ def rendered_texts(e, skip_ids=(), fill=None):
     for b in walk(e):
         if id(b) in skip_ids: continue
         if b['k'] == 'Block' and 'format_args' in str(b.get('exp')) and b['stmts']:
-            args = None
-            for st in b['stmts']:
-                if st['k'] == 'Let' and st.get('init') is not None and strip(st['init'])['k'] == 'Tuple' and args is None: args = strip(st['init'])['fields']
-            tm = [x for x in walk(b) if x['k'] == 'Literal' and x.get('lit') == 'ByteStr']
+            tm0, args = format_block_parts(b)
+            tm = [tm0] if tm0 is not None else []
             if args is not None and tm and id(tm[0]) not in consumed:
                 text = engine_u.decode_template(tm[0]['value'])
                 parts = text.split('{}')
                 if len(parts) == len(args) + 1:
                     res = parts[0]
                     for a, nxt in zip(args, parts[1:]):
-                        a0 = strip(a)
+                        a0 = peel_text(a)
                         cs = const_text(a0)
+                        if cs is None and a0['k'] == 'Call' and ((callee_name(a0) or '').endswith('fmt::format') or (callee_name(a0) or '').endswith('::must_use')):
+                            # a nested format!(..) handed over as text: rendered in place
+                            inner = rendered_texts(a0, (), fill)
+                            fa_ids = set(id(y) for y in walk(a0))
+                            cs = ''.join(tx for nd, tx in inner if nd.get('lit') == 'ByteStr')
+                            for y in walk(a0): consumed.add(id(y))
                         if a0['k'] == 'Literal' and a0.get('lit') == 'Str':
                             res += a0['value']; consumed.add(id(a0))
                         elif cs is not None: res += cs                                  # a private `const NAME: &str = ".."`
